@@ -2,7 +2,8 @@ SPECIFICATION MCSpec
 CONSTANTS
   NK = 2
   NV = 2
-  Ops = {"map", "filter_map", "mapi", "filter_mapi", "fold", "fold_rev", "fold_upd", "fold_upd_rev", "merge", "partition", "partition_mapi"}
+  Ops = {"map", "filter_map", "mapi", "filter_mapi", "fold", "fold_rev", "fold_upd", "fold_upd_rev", "merge", "partition", "partition_mapi",
+         "fold_sum", "fold_sum_upd", "chain_fm_map", "chain_fm_fold"}
   MaxSets = 4
   MaxTog = 4
   MaxActive = 1
